@@ -42,6 +42,7 @@ func RunPlan(args []string, opts GlobalOptions) error {
 
 	var out planOutput
 	if err := withLock(lockPath, syscall.LOCK_EX, func() error {
+		verifPoint("section", "Plan")
 		events, err := readEvents(eventsPath)
 		if err != nil {
 			return err
